@@ -13,6 +13,29 @@ CHECKS = {
         ref="DESIGN.md §3 C01"),
 }
 
+CHECKS.update({
+    "C02": dict(
+        technique="runtime monitoring: operation histories on Dataset/ConjunctiveGraph checked against a dict-of-sets model through several independent views",
+        text="Exploration. Generated histories of quad add/remove/pattern remove/remove-from-all/addN/graph()/remove_graph over five graph names (default, IRIs, a bnode, an IRI colliding with the bnode label) run on Dataset(default_union off/on) and ConjunctiveGraph; after every operation quads(), graphs(), three kinds of per-graph view, quad membership, reads restricted to existing/empty/unknown graphs and the merged view are compared with a name->set model; all short histories are enumerated. One listed finding (restricted quads() repeats a shared triple per graph) is carved out exactly.",
+        note="Trusted: the model, term keys. Existence of graphs emptied by triple removal is not judged. Memory store only.",
+        ref="DESIGN.md §3 C02"),
+    "C17": dict(
+        technique="runtime monitoring: bind/qname histories with two-way-map invariants and expand(compact(x)) = x checked at every quiescent point",
+        text="Exploration. Generated histories of bind() with all flag combinations over nested/overlapping namespaces, interleaved with qname/curie/compute_qname(_strict)/normalizeUri/n3 probes, Turtle parses, serialisations that generate prefixes and reset(), on both stores; after each step the listing and both lookups must agree and every compact form must use a currently bound prefix and expand back. All short bind histories are enumerated.",
+        note="No model of which prefix wins; ValueError/KeyError refusals are not judged.",
+        ref="DESIGN.md §3 C17"),
+    "C18": dict(
+        technique="runtime monitoring: transaction histories on AuditableStore checked against snapshot/state model read from the wrapped store; all merges of two wrappers' sequences",
+        text="Exploration. Generated transaction histories (adds, re-adds, removes, pattern removes of every shape, remove with no graph, set, addN, += over 1-3 graphs, 1-4 transactions ending in commit or rollback, then a second rollback) run through Graph/ConjunctiveGraph views of AuditableStore(Memory); the wrapped store is read directly after every operation and boundary. Two-wrapper lane: every interleaving of two sequences over disjoint subjects, rollback/commit of either. Exhaustive lane over every initial content of 2 triples x 2 graphs.",
+        note="Underlying store Memory only; existence of empty graphs after rollback not judged.",
+        ref="DESIGN.md §3 C18"),
+    "C19": dict(
+        technique="runtime monitoring: list-operation histories against a Python list model, chain-walk structural invariant (also as icontract class invariant), sys.monitoring step budget for reads on broken chains",
+        text="Exploration. Generated histories of append, +=, c[i]=v, del c[i], clear, len, iteration, c[i], index, membership on a Collection (members incl. falsy literals and duplicates, indices biased to first/last/len/len+1) compared step by step with a Python list, with a walk of the rdf:first/rdf:rest chain (well-formed, members equal, no orphan cells, unrelated triples untouched) after every step; reads on cyclic and malformed chains must return or raise within a logical step budget; exhaustive lane over all short histories. One listed finding (c[len]=x) is carved out by its trigger.",
+        note="Negative indices not judged; non-termination judged up to the step budget only.",
+        ref="DESIGN.md §3 C19"),
+})
+
 PENDING_REASON = "check not built yet in this session (planned, see DESIGN.md §2.1 build order); no claim is made until the monitor exists and has been calibrated"
 
 
